@@ -103,6 +103,13 @@ TEXT.update({
             "u128 oracle; Gaussian elimination in the oracle for the reference inverse"),
 })
 
+TEXT.update({
+    "C12": ("races", "ThreadSanitizer over a pthread OpenMP stand-in (fork/join visible), all k! sequential member orders for teams <= 4, libgomp team sweep, bit-identity with the single-thread result",
+            "Every parallel region of the transforms, Merkle builders and copy helpers is executed under TSan with 7 team sizes (fewer, equal, more members than iterations) and "
+            "seeded start-up delays; the same workloads run with permuted sequential member orders and on real libgomp and must reproduce the single-thread output bit for bit.",
+            "TSan happens-before analysis on the executed regions; schedules of regions never entered are not covered"),
+})
+
 NOT_YET = "check not built yet in this revision of /verif (planned, see DESIGN.md section 3)"
 
 
